@@ -220,8 +220,19 @@ CORPUS = [
     ('control_lattice', _LAT.format(fill='fill=0:1 0:1 0:0 2 2 2 2'), [], None),
     ('control_latopt', _LAT.format(fill='fill=2'), ['--lattice', '1,0:1,0:1'],
      None),
+    ('control_tr', _b(data='tr4 0 0 0 1 0 0 0 1 0 0 0 1'), [], None),
     ('tr_card_m', _b(data='tr4 0 0 0 1 0 0 0 1 0 0 0 1 -1'), [],
      'ETransformation'),
+    ('tr_card_m_twin', _b(data='tr4 1 2 3 0 1 0 -1 0 0 0 0 1\ntr5 1 2 3 0 1 0 -1 0 0 0 0 1 -1'),
+     [], 'ETransformation'),
+    ('trcl_m_twin_of_card', _b(c1='trcl=(1 2 3 0 1 0 -1 0 0 0 0 1 -1)',
+                                data='tr4 1 2 3 0 1 0 -1 0 0 0 0 1'), [],
+     'ETransformation'),
+    ('mixed_fractions_minus_first', _b(data='m2 1001 -2 8016 1'), [],
+     'EMixedSigns'),
+    ('mixed_fractions_minus_minus_plus', _b(data='m2 1001 -2 8016 -1 6000 1'),
+     [], 'EMixedSigns'),
+    ('facet_on_one_piece_surface', _b(c1='1.2'), [], 'ECellConversion'),
     ('star_tr_card_m', _b(data='*tr4 0 0 0 0 90 90 90 0 90 90 90 0 -1'), [],
      'ETransformation'),
     ('trcl_m', _b(c1='trcl=(0 0 0 1 0 0 0 1 0 0 0 1 -1)'), [],
@@ -610,7 +621,7 @@ def rotation_entries(rng):
 
 
 def gen_normtr(rng):
-    n = rng.choice(list(range(0, 17)) + [13, 13, 13, 12, 3, 9, 6])
+    n = rng.choice(list(range(0, 17)) + [13, 13, 13, 12, 12, 12, 12, 3, 9, 6])
     full = rotation_entries(rng) + [1.0, 2.0, 0.5, 1.5]
     entries = full[:n]
     if n == 13:
@@ -1041,8 +1052,15 @@ def _run(res, tier, seed, proofs_ok):
 
     # ---- 2c. normalize_transform -----------------------------------------
     cases, metas = [], []
+    twins = []
     for _ in range(300 if quick else 3000):
-        entries = gen_normtr(rng)
+        if twins:
+            entries = twins.pop()
+        else:
+            entries = gen_normtr(rng)
+            if len(entries) == 12 and rng.random() < 0.7:
+                # the same twelve entries again, with a 13th entry m != 1
+                twins.append(entries + [rng.choice([-1.0, 0.0, 2.0])])
         with warnings.catch_warnings():
             warnings.simplefilter('ignore')
             out = impl_normtr(entries)
@@ -1180,7 +1198,10 @@ def _run(res, tier, seed, proofs_ok):
             if cls == 'lattice_no_opt' and rng.random() < 0.6:
                 feat.add('latopt')
             base = G.gen_valid_deck(rng, feat)
-            for faulted, where in fun(base, rng):
+            faulted_list = fun(base, rng)
+            if faulted_list and cls in G.AFTER_VALID:
+                decks.append((base, None, f'before {cls}'))
+            for faulted, where in faulted_list:
                 decks.append((faulted, cls, where))
                 made += 1
     deck_cases, deck_metas = [], []
